@@ -171,7 +171,7 @@ func (m *liveMon) feed(o liveObs) {
 const metaShard = 1000
 
 // convergenceBound is the watchdog of one settle phase (convergence normally takes a few ms).
-const convergenceBound = 5 * time.Second
+const convergenceBound = 3 * time.Second
 
 // healWait (C19_HEAL_WAIT, diagnostic only): how long to keep watching a view that did not
 // converge within the bound.
@@ -344,7 +344,7 @@ func runLive(r *ev.Run, seed int64, episodes, transfers int) {
 		return false, lastState
 	}
 
-	done, notDone, converged, stale := 0, 0, 0, 0
+	done, notDone, converged, stale, refreshed := 0, 0, 0, 0, 0
 	var lastState string
 	for ep := 0; ep < episodes; ep++ {
 		for k := 0; k < transfers; k++ {
@@ -407,11 +407,63 @@ func runLive(r *ev.Run, seed int64, episodes, transfers int) {
 			ok, st := awaitConvergence(healWait, fmt.Sprintf("heal%d", ep))
 			r.Note(fmt.Sprintf("live diag: after further %v: converged=%v %s", time.Since(t0).Round(time.Millisecond), ok, st))
 		}
+		// Logical (clock-free) part: regatta refreshes a view by merging the node's own NodeHost
+		// information into it (Cluster.Notify on Raft events, LocalState on every memberlist
+		// push/pull). Do that refresh now on every node. While Raft's answer stays the same
+		// before and after, every header read after the refresh returned must name exactly
+		// Raft's (term, leader): the update naming the highest term has been delivered.
+		verdict := ""
+		for attempt := 0; attempt < 50 && verdict == ""; attempt++ {
+			l, tm, ok := raft(shard)
+			if !ok {
+				time.Sleep(20 * time.Millisecond)
+				continue
+			}
+			for _, n := range c.Nodes {
+				n.Engine.Cluster.Notify()
+			}
+			type hv struct{ node, leader, term uint64 }
+			var seen []hv
+			complete := true
+			for _, n := range c.Nodes {
+				ctx, cancel := context.WithTimeout(context.Background(), 2*time.Second)
+				resp, err := n.Engine.Range(ctx, &pb.RangeRequest{Table: []byte("t"), Key: []byte("k0")})
+				cancel()
+				if err != nil {
+					complete = false
+					break
+				}
+				hdr(fmt.Sprintf("refresh%d-n%d", ep, n.ID), "range", n.ID, resp.Header)
+				seen = append(seen, hv{n.ID, resp.Header.RaftLeaderId, resp.Header.RaftTerm})
+			}
+			if l2, tm2, ok2 := raft(shard); !complete || !ok2 || l2 != l || tm2 != tm {
+				continue // Raft moved meanwhile: nothing to conclude from this attempt
+			}
+			verdict = "settled"
+			for _, h := range seen {
+				if h.leader != l || h.term != tm {
+					verdict = fmt.Sprintf("node %d answers leader %d term %d after its view was refreshed from its own NodeHost, Raft (all three nodes, before and after) says leader %d term %d", h.node, h.leader, h.term, l, tm)
+				}
+			}
+		}
+		switch verdict {
+		case "settled":
+			refreshed++
+		case "":
+			r.Inconclusive(fmt.Sprintf("live (seed %d, episode %d): Raft leadership kept moving during 50 refresh attempts", seed, ep))
+		default:
+			m.mu.Lock()
+			h := append([]liveObs{}, m.hist...)
+			m.mu.Unlock()
+			r.Violation("live-view-keeps-older-leader-after-refresh", verdict, witnessLive{Layer: 2, CaseSeed: seed, Transfer: transfers, Episodes: episodes, History: h})
+		}
 	}
+	r.Count("live_episodes_settled_after_explicit_refresh", int64(refreshed))
 	r.Count("live_transfers_completed", int64(done))
 	r.Count("live_transfers_not_confirmed", int64(notDone))
-	r.Count("live_episodes_converged", int64(converged))
-	r.Count("live_episodes_not_converged_within_bound", int64(stale))
+	r.Count("live_episodes_converged_unassisted", int64(converged))
+	r.Count("live_episodes_settled", int64(converged+refreshed))
+	r.Count("live_episodes_stale_beyond_bound", int64(stale))
 	stopAll()
 	m.mu.Lock()
 	headers, views, changes, raftBad := m.headers, m.views, m.changes, m.raftBad
@@ -443,7 +495,7 @@ func runLive(r *ev.Run, seed int64, episodes, transfers int) {
 	if len(tail) > 12 {
 		tail = tail[:12]
 	}
-	r.Sample(map[string]any{"layer": 2, "case_seed": seed, "episodes": episodes, "episodes_converged": converged, "transfers_completed": done, "headers_observed": headers, "view_reads": views,
+	r.Sample(map[string]any{"layer": 2, "case_seed": seed, "episodes": episodes, "episodes_converged_unassisted": converged, "episodes_stale_beyond_bound_then_settled_by_refresh": refreshed, "transfers_completed": done, "headers_observed": headers, "view_reads": views,
 		"distinct_terms_with_leader_in_headers": len(terms), "final": lastState, "node1_header_changes_first12": tail})
 }
 
